@@ -1,6 +1,6 @@
 ---------------------------- MODULE MC_Fin ----------------------------
 EXTENDS Fin
-FAll  == {"drain", "never", "done", "hasty"}
+FAll  == {"drain", "never", "done", "hasty", "keep"}
 FOne  == {"drain"}
 KBoth == {"composite", "decorator"}
 KComp == {"composite"}
